@@ -76,6 +76,12 @@ def run(ck):
         d2 = copy.deepcopy(d); f(d2); mal.append((desc, mutate.deflate(mutate.pack_compressed(d2))))
     big = copy.deepcopy(d); big["constraints"] = big["constraints"] * 40       # > max_constraints(small) = 26
     mal[3] = ("needs more constraints than the parameters allow", mutate.deflate(mutate.pack_compressed(big)))
+    # well-formed descriptions that merely DECLARE more witnesses than they use: accepted, same keys, and the
+    # declared count must not drive memory or work
+    over = []
+    for wcount in (1 << 16, 1 << 22, 1 << 30, 1 << 40, 1 << 57, (1 << 64) - 1):
+        d3 = copy.deepcopy(d); d3["witnesses"] = wcount
+        over.append((wcount, mutate.deflate(mutate.pack_compressed(d3))))
     mids = []
     for j, (desc, b) in enumerate(mal):
         S.cmd("blob", f"mal{j}", b.hex()); mids.append((desc, len(b), S.cmd("compilemem", f"x{j}", "small", "6d", f"mal{j}")))
@@ -106,6 +112,25 @@ def run(ck):
         if not (res[ids["prove"]].startswith("OK") and res[ids["verify"]].startswith("OK")):
             ck.violation(f"compressed-route proof not accepted by the direct-route verifier: {tag}: {res[ids['prove']][:50]} {res[ids['verify']][:50]}", ctx, key="cross-verify")
     honest_mem = int(re.search(r"mem=(\d+)", res[hid]).group(1))
+    # each over-declared description in a process of its own: an abort (allocation failure) is an outcome, not a crash of the check
+    for j, (wcount, bts) in enumerate(over):
+        ck.count(("declared-witnesses", wcount), kind="over-declared witness count")
+        ctx = {"failing_input_found": True, "declared_witnesses": wcount, "description": "the honest description of circuit M with only the declared witness count changed", "circuit": S.circuits["M"], "compressed_hex": bts.hex()}
+        T = protocol.Script(); T.cmd("pp", "small", 32, 3); T.circuit("M", S.circuits["M"])
+        T.cmd("compilec", "km", "small", "6d", "M"); hd = (T.cmd("digest", "prover", "km"), T.cmd("digest", "verifier", "km"))
+        T.cmd("blob", "ov", bts.hex()); cid = T.cmd("compilemem", "xo", "small", "6d", "ov"); dp = T.cmd("digest", "prover", "xo"); dv = T.cmd("digest", "verifier", "xo")
+        try:
+            rr = protocol.run(T, f"c15_ov{j}")
+        except BuildError as ex:
+            ck.violation(f"compile_with_compressed aborted the process on a description declaring {wcount} witnesses (and using 6): {str(ex)[:160]}", ctx, key="abort-declared"); continue
+        r = rr.get(cid, "")
+        if "PANIC" in r: ck.violation(f"compile_with_compressed panicked on a description declaring {wcount} witnesses: {r[:120]}", ctx, key="panic-declared")
+        else:
+            m_ = re.search(r"mem=(\d+)", r)
+            if m_ and int(m_.group(1)) > 4 * honest_mem + (1 << 20):
+                ck.violation(f"a description declaring {wcount} witnesses (and using 6) made the compile allocate {m_.group(1)} bytes; the honest description: {honest_mem}", ctx, key="alloc-declared")
+            elif r.startswith("OK") and (rr[dp], rr[dv]) != (rr[hd[0]], rr[hd[1]]):
+                ck.violation(f"a description declaring {wcount} witnesses compiles to different keys", ctx, key="keys-declared")
     for desc, ln, cid in mids:
         r = res[cid]
         ctx = {"failing_input_found": True, "malformed": desc, "len": ln}
@@ -116,7 +141,7 @@ def run(ck):
             if m > 4 * honest_mem + (1 << 20):
                 ck.violation(f"decompression of a malformed description allocated {m} bytes (honest compile on the same parameters: {honest_mem}): {desc}", ctx, key="alloc")
     return ck.finish(level="proof",
-        rule="circuits whose selectors equal each built-in table entry (0, 1, -1, Hades round constants, all nine MDS values 1/5..1/13), unused witnesses, repeated/distinct selector tuples, zero-valued and first/last-row public inputs, empty label, gadget mixes: prover and verifier digests of both routes, compressed-route proof under the direct-route verifier; a 12000-row regular circuit (high deflate ratio), SRS degrees from 1 to 2x needed (model's proved capacity functions predict both routes); malformed descriptions (trailing bytes after/inside the stream, excess counts, out-of-range indices, too many constraints, bomb) with peak allocation against an honest compile",
+        rule="circuits whose selectors equal each built-in table entry (0, 1, -1, Hades round constants, all nine MDS values 1/5..1/13), unused witnesses, repeated/distinct selector tuples, zero-valued and first/last-row public inputs, empty label, gadget mixes: prover and verifier digests of both routes, compressed-route proof under the direct-route verifier; a 12000-row regular circuit (high deflate ratio), SRS degrees from 1 to 2x needed (model's proved capacity functions predict both routes); malformed descriptions (trailing bytes after/inside the stream, excess counts, out-of-range indices, too many constraints, bomb, over-declared witness counts up to 2^64-1) with peak allocation against an honest compile",
         assumptions=["deflate/inflate of miniz_oxide round-trips and respects the output limit", "msgpacker encodes the MessagePack subset parsed here"],
         checker_cmd=proofgate.CHECKER_CMD, trusted_base=proofgate.TRUSTED)
 
